@@ -65,6 +65,9 @@ class Nullness:
         if isinstance(e, ast.Name):
             return env.get(e.id, N)
         if isinstance(e, ast.Attribute):
+            d = dotted(e)
+            if d is not None and d in env:
+                return env[d]
             return M if e.attr in self.maybe_attrs else N
         if isinstance(e, ast.IfExp):
             te = self.refine(e.test, True, dict(env))
@@ -123,14 +126,21 @@ class Nullness:
             return env
         if isinstance(test, ast.Compare) and len(test.ops) == 1:
             l, r, op = test.left, test.comparators[0], test.ops[0]
-            if isinstance(r, ast.Constant) and r.value is None and isinstance(l, ast.Name):
-                if isinstance(op, ast.IsNot) and positive or isinstance(op, ast.Is) and not positive:
-                    env[l.id] = N
-                elif isinstance(op, (ast.NotEq,)) and positive or isinstance(op, ast.Eq) and not positive:
-                    env[l.id] = N
+            if isinstance(r, ast.Constant) and r.value is None and isinstance(l, (ast.Name, ast.Attribute)):
+                key = l.id if isinstance(l, ast.Name) else dotted(l)
+                if key is not None:
+                    if isinstance(op, ast.IsNot) and positive or isinstance(op, ast.Is) and not positive:
+                        env[key] = N
+                    elif isinstance(op, (ast.NotEq,)) and positive or isinstance(op, ast.Eq) and not positive:
+                        env[key] = N
             return env
         if isinstance(test, ast.Name) and positive:
             env[test.id] = N
+            return env
+        if isinstance(test, ast.Attribute) and positive:
+            d = dotted(test)
+            if d is not None:
+                env[d] = N  # `x.text` was just seen truthy; the fact is dropped when x is rebound
             return env
         if isinstance(test, ast.NamedExpr) and isinstance(test.target, ast.Name):
             env[test.target.id] = N if positive else self.expr(test.value, env)
@@ -146,6 +156,8 @@ class Nullness:
     def _assign(self, target, value_null: str, env: dict):
         if isinstance(target, ast.Name):
             env[target.id] = value_null
+            for k in [k for k in env if k.startswith(target.id + ".")]:
+                del env[k]
         elif isinstance(target, (ast.Tuple, ast.List)):
             for t in target.elts:
                 self._assign(t, N, env)
